@@ -1,4 +1,6 @@
 import RichModel.Model.Ansi
+import RichModel.Model.AnsiParams
+import RichModel.Model.AnsiProxyApi
 import RichModel.Drv.Proto
 /-
 Driver handlers for property C19 (ANSI decoder / truecolor encoder / FileProxy).
@@ -16,6 +18,10 @@ Wire formats
 * decode  : `n#text#text…!final-style|n<null>!ok` or `…!err:<class>`
 * seg     : `text~-~linkid` | `text~style|n<null>~linkid`, a list is `n:` seg `;` seg …
 * ops     : `W=`string | `F0` | `F1` separated by `,`   (F1: the console's print raised); `proxy_run2`: each prefixed `o` / `e`
+* params  : `ansi_attr_params flags i on` / `ansi_color_params flags color fg` → `ok:`param-text`!`style|n<null>  (the decoder's style after
+            `ESC [ params m` from a fresh decoder; `!raised` if the decoder raised) or `err:`class (the encoder raised)
+* apiops  : `proxy_api flags ops`: ops separated by `,`: `W=`string | `X` (write of a non-str) | `F0` | `L=`item`+`item… (writelines; item `S`string | `X`;
+            `L=` alone = the empty list); answer: events per op as below, `R:TypeError` for the TypeError of a non-str write
 * events  : per op, separated by `/`:  events of that op separated by `,`:
             `T`text (print of a decoded Text, markup/emoji/highlight off) | `S=`string (print of a str,
             console defaults) | `R:`class
@@ -177,7 +183,37 @@ def run2PerOp (cfg : Ansi.Cfg) : Proxies → List (Bool × Op) → List (List Ev
     let a := (ps.get b).step cfg op
     a.2 :: run2PerOp cfg (ps.set b a.1) h
 
+def decArg (s : String) : Option Arg :=
+  if s == "X" then some .notStr
+  else if s.startsWith "S" then some (.str (decStr (s.drop 1).toString))
+  else none
+
+def decApiOp (s : String) : Option ApiOp :=
+  if s == "X" then some (.write .notStr)
+  else if s == "F0" then some .flush
+  else if s.startsWith "W=" then some (.write (.str (decStr (s.drop 2).toString)))
+  else if s.startsWith "L=" then
+    let body := (s.drop 2).toString
+    if body.isEmpty then some (.writelines []) else (body.splitOn "+").mapM decArg |>.map .writelines
+  else none
+
+def encApiEvent : ApiEvent → String
+  | .ev e => encEvent e
+  | .typeError => "R:TypeError"
+
+def apiPerOp (cfg : Ansi.Cfg) : Proxy → List ApiOp → List (List ApiEvent)
+  | _, [] => []
+  | p, op :: h => let a := apiStep cfg p op; a.2 :: apiPerOp cfg a.1 h
+
 def handlers : List (String × (List String → String)) := [
+  ("proxy_api", fun a => match a with
+    | [fl, ops] => match decFlags fl with
+      | some cfg =>
+        match (if ops.isEmpty then some [] else (ops.splitOn ",").mapM decApiOp) with
+        | some h => "/".intercalate ((apiPerOp cfg Proxy.init h).map fun evs => ",".intercalate (evs.map encApiEvent))
+        | none => "bad-args"
+      | none => "bad-args"
+    | _ => "bad-args"),
   ("ansi_tokenize", fun a => match a with
     | [fl, s] => match decFlags fl with
       | some cfg =>
@@ -205,6 +241,25 @@ def handlers : List (String × (List String → String)) := [
         let r := decodeCollect cfg Style.null (splitlines (decStr s)) []
         encDecoded r.1 r.2.1 r.2.2
       | none => "bad-args"
+    | _ => "bad-args"),
+  ("ansi_attr_params", fun a => match a with     -- Style(attr_i=on): _make_ansi_codes(TRUECOLOR), then decoded from a fresh decoder
+    | [fl, i, on] => match decFlags fl, i.toNat? with
+      | some cfg, some i =>
+        if i < 13 then
+          match makeAnsiCodes (attrStyle i (on == "1")) with
+          | .ok p => "ok:" ++ encStr p ++ "!" ++ (match decodeParams cfg p with | some st => encFinal st | none => "raised")
+          | .error e => encEncErr e
+        else "unmodelled"
+      | _, _ => "bad-args"
+    | _ => "bad-args"),
+  ("ansi_color_params", fun a => match a with    -- Style(color=c) / Style(bgcolor=c): the colour's parameters, then decoded
+    | [fl, c, fg] => match decFlags fl, decColor c with
+      | some cfg, some (some col) =>
+        match colorCodes col (fg == "1") with
+        | .ok ps => "ok:" ++ encStr (joinWith ';' ps) ++ "!" ++
+            (match decodeParams cfg (joinWith ';' ps) with | some st => encFinal st | none => "raised")
+        | .error e => encEncErr e
+      | _, _ => "bad-args"
     | _ => "bad-args"),
   ("ansi_encode", fun a => match a with           -- _render_buffer on a truecolor terminal
     | [legacy, segs] => match decSegs segs with
